@@ -162,7 +162,7 @@ macro_rules! mb_body {
 macro_rules! uf_words {
     ($m:ident, $nw:expr) => {
         pub mod $m {
-            pub const MAXC: usize = 12;
+            pub const MAXC: usize = 16;
             pub static mut IN: [[u64; $nw]; MAXC] = [[0; $nw]; MAXC];
             pub static mut OUT: [[u64; $nw]; MAXC] = [[0; $nw]; MAXC];
             pub static mut N: usize = 0;
@@ -375,8 +375,8 @@ macro_rules! threefish_type {
 // @ob name=t256_dec props=C10,C20 kind=contract fn=threefish::Threefish256::decrypt_block_u64 uses=c_inv_mix timeout=600
 // @ob name=t256_bytes props=C10,C20 kind=contract fn=threefish::Threefish256::encrypt_block,threefish::Threefish256::decrypt_block uses=t256_enc,t256_dec timeout=300
 // @ob name=t256_api props=C10,C20 kind=contract fn=threefish::Threefish256::new,threefish::Threefish256::new_with_tweak,threefish::Threefish256::encrypt_block,threefish::Threefish256::decrypt_block uses=c_mix,c_inv_mix timeout=600
-// @ob name=t256_rt1 props=C01 kind=contract fn=threefish::Threefish256::encrypt_block_u64,threefish::Threefish256::decrypt_block_u64 timeout=600
-// @ob name=t256_rt2 props=C01 kind=contract fn=threefish::Threefish256::encrypt_block_u64,threefish::Threefish256::decrypt_block_u64 timeout=600
+// @ob name=t256_rt1 props=C01 kind=contract tier=thorough fn=threefish::Threefish256::encrypt_block_u64,threefish::Threefish256::decrypt_block_u64 timeout=3600
+// @ob name=t256_rt2 props=C01 kind=contract tier=thorough fn=threefish::Threefish256::encrypt_block_u64,threefish::Threefish256::decrypt_block_u64 timeout=3600
 // @ob name=t256_keylen props=C11 kind=bounded bound="slice length <= 300" fn=threefish::Threefish256::new_from_slice timeout=300
 // @ob name=t256_same props=C11,C12 kind=contract fn=threefish::Threefish256::new_from_slice,threefish::Threefish256::new,threefish::Threefish256::clone timeout=300
 // @ob name=t256_weak props=C13 kind=contract fn=threefish::Threefish256::weak_key_test,threefish::Threefish256::new_checked timeout=300
@@ -388,12 +388,12 @@ threefish_type!(Threefish256, nw=4, ns=19, uf=uf4, name="Threefish256";
 // Threefish512: N_w = 8, 72 rounds, 19 subkeys
 // @ob name=t512_ks props=C10,C20 kind=contract fn=threefish::Threefish512::new_with_tweak_u64 timeout=300
 // @ob name=t512_ks_bytes props=C10,C11,C20 kind=contract fn=threefish::Threefish512::new_with_tweak,threefish::Threefish512::new timeout=300
-// @ob name=t512_enc props=C10,C20 kind=contract fn=threefish::Threefish512::encrypt_block_u64 uses=c_mix timeout=600
-// @ob name=t512_dec props=C10,C20 kind=contract fn=threefish::Threefish512::decrypt_block_u64 uses=c_inv_mix timeout=600
+// @ob name=t512_enc props=C10,C20 kind=contract tier=thorough fn=threefish::Threefish512::encrypt_block_u64 uses=c_mix timeout=3600
+// @ob name=t512_dec props=C10,C20 kind=contract tier=thorough fn=threefish::Threefish512::decrypt_block_u64 uses=c_inv_mix timeout=3600
 // @ob name=t512_bytes props=C10,C20 kind=contract fn=threefish::Threefish512::encrypt_block,threefish::Threefish512::decrypt_block uses=t512_enc,t512_dec timeout=300
-// @ob name=t512_api props=C10,C20 kind=contract fn=threefish::Threefish512::new,threefish::Threefish512::new_with_tweak,threefish::Threefish512::encrypt_block,threefish::Threefish512::decrypt_block uses=c_mix,c_inv_mix timeout=600
-// @ob name=t512_rt1 props=C01 kind=contract fn=threefish::Threefish512::encrypt_block_u64,threefish::Threefish512::decrypt_block_u64 timeout=600
-// @ob name=t512_rt2 props=C01 kind=contract fn=threefish::Threefish512::encrypt_block_u64,threefish::Threefish512::decrypt_block_u64 timeout=600
+// @ob name=t512_api props=C10,C20 kind=contract tier=thorough fn=threefish::Threefish512::new,threefish::Threefish512::new_with_tweak,threefish::Threefish512::encrypt_block,threefish::Threefish512::decrypt_block uses=c_mix,c_inv_mix timeout=3600
+// @ob name=t512_rt1 props=C01 kind=contract tier=thorough fn=threefish::Threefish512::encrypt_block_u64,threefish::Threefish512::decrypt_block_u64 timeout=3600
+// @ob name=t512_rt2 props=C01 kind=contract tier=thorough fn=threefish::Threefish512::encrypt_block_u64,threefish::Threefish512::decrypt_block_u64 timeout=3600
 // @ob name=t512_keylen props=C11 kind=bounded bound="slice length <= 300" fn=threefish::Threefish512::new_from_slice timeout=300
 // @ob name=t512_same props=C11,C12 kind=contract fn=threefish::Threefish512::new_from_slice,threefish::Threefish512::new,threefish::Threefish512::clone timeout=300
 // @ob name=t512_weak props=C13 kind=contract fn=threefish::Threefish512::weak_key_test,threefish::Threefish512::new_checked timeout=300
@@ -405,12 +405,12 @@ threefish_type!(Threefish512, nw=8, ns=19, uf=uf8, name="Threefish512";
 // Threefish1024: N_w = 16, 80 rounds, 21 subkeys
 // @ob name=t1024_ks props=C10,C20 kind=contract fn=threefish::Threefish1024::new_with_tweak_u64 timeout=300
 // @ob name=t1024_ks_bytes props=C10,C11,C20 kind=contract fn=threefish::Threefish1024::new_with_tweak,threefish::Threefish1024::new timeout=300
-// @ob name=t1024_enc props=C10,C20 kind=contract fn=threefish::Threefish1024::encrypt_block_u64 uses=c_mix timeout=600
-// @ob name=t1024_dec props=C10,C20 kind=contract fn=threefish::Threefish1024::decrypt_block_u64 uses=c_inv_mix timeout=600
+// @ob name=t1024_enc props=C10,C20 kind=contract tier=thorough fn=threefish::Threefish1024::encrypt_block_u64 uses=c_mix timeout=3600
+// @ob name=t1024_dec props=C10,C20 kind=contract tier=thorough fn=threefish::Threefish1024::decrypt_block_u64 uses=c_inv_mix timeout=3600
 // @ob name=t1024_bytes props=C10,C20 kind=contract fn=threefish::Threefish1024::encrypt_block,threefish::Threefish1024::decrypt_block uses=t1024_enc,t1024_dec timeout=300
-// @ob name=t1024_api props=C10,C20 kind=contract fn=threefish::Threefish1024::new,threefish::Threefish1024::new_with_tweak,threefish::Threefish1024::encrypt_block,threefish::Threefish1024::decrypt_block uses=c_mix,c_inv_mix timeout=600
-// @ob name=t1024_rt1 props=C01 kind=contract fn=threefish::Threefish1024::encrypt_block_u64,threefish::Threefish1024::decrypt_block_u64 timeout=600
-// @ob name=t1024_rt2 props=C01 kind=contract fn=threefish::Threefish1024::encrypt_block_u64,threefish::Threefish1024::decrypt_block_u64 timeout=600
+// @ob name=t1024_api props=C10,C20 kind=contract tier=thorough fn=threefish::Threefish1024::new,threefish::Threefish1024::new_with_tweak,threefish::Threefish1024::encrypt_block,threefish::Threefish1024::decrypt_block uses=c_mix,c_inv_mix timeout=3600
+// @ob name=t1024_rt1 props=C01 kind=contract tier=thorough fn=threefish::Threefish1024::encrypt_block_u64,threefish::Threefish1024::decrypt_block_u64 timeout=3600
+// @ob name=t1024_rt2 props=C01 kind=contract tier=thorough fn=threefish::Threefish1024::encrypt_block_u64,threefish::Threefish1024::decrypt_block_u64 timeout=3600
 // @ob name=t1024_keylen props=C11 kind=bounded bound="slice length <= 300" fn=threefish::Threefish1024::new_from_slice timeout=300
 // @ob name=t1024_same props=C11,C12 kind=contract fn=threefish::Threefish1024::new_from_slice,threefish::Threefish1024::new,threefish::Threefish1024::clone timeout=300
 // @ob name=t1024_weak props=C13 kind=contract fn=threefish::Threefish1024::weak_key_test,threefish::Threefish1024::new_checked timeout=300
